@@ -551,3 +551,71 @@ def compare_rate_exact(g, impl, model):
             if not abs(x[2] * x[2] - y[2] * y[2]) <= bs and not (ls and x[2] == g["teams"][ti][pi][1]):
                 return "slot [%d][%d] sigma^2: impl %r, exact closed form %r, allowed deviation %.3g" % (ti, pi, x[2] ** 2, y[2] ** 2, bs)
     return None
+
+
+# ---------------------------------------------------------------- gamma-callback trace (internal state of rate)
+def impl_trace(g):
+    """the arguments with which the library calls the gamma callback during rate(g), in order:
+    [(c, k, mu, sigma_squared, rank, [slot ids of the team's players])]"""
+    model = build_model(g)
+    teams = build_teams(model, g)
+    slot = {}
+    k = 0
+    for t in teams:
+        for p in t:
+            slot[p.id] = k
+            k += 1
+    base = model.gamma
+    calls = []
+
+    def cb(c, k_, mu, s2, team, rank):
+        calls.append((c, k_, mu, s2, rank, [slot.get(p.id, -1) for p in team]))
+        return base(c, k_, mu, s2, team, rank)
+    model.gamma = cb
+    kw = {}
+    if g["oc"][0] == "R":
+        kw["ranks"] = list(g["oc"][1])
+    elif g["oc"][0] == "S":
+        kw["scores"] = list(g["oc"][1])
+    if g["tauopt"] is not None:
+        kw["tau"] = g["tauopt"]
+    if g["lsopt"] is not None:
+        kw["limit_sigma"] = g["lsopt"]
+    model.rate(teams, **kw)
+    return calls
+
+
+def parse_trace(line):
+    out = []
+    for tok in line.split(" ")[1:]:
+        if not tok:
+            continue
+        c, k, mu, s2, rank, ids = tok.split(":")
+        out.append((h2f(c), int(k), h2f(mu), h2f(s2), int(rank), [int(x) for x in ids.split(",") if x]))
+    return out
+
+
+def trace_games(res, games, kind_on_mismatch, label):
+    lines = [rate_line(g).replace("RATE", "TRACE", 1) for g in games]
+    outs = Driver().run(lines)
+    for g, o in zip(games, outs):
+        try:
+            got = impl_trace(g)
+        except Exception as e:  # noqa: BLE001
+            res.fail("property", "%s: valid call raised %s" % (label, type(e).__name__), dict(type="game", game=g))
+            continue
+        want = parse_trace(o)
+        res.traces += 1
+        res.count("gamma_trace_comparisons")
+        bad = None
+        if len(got) != len(want):
+            bad = "the callback is called %d times, the model predicts %d" % (len(got), len(want))
+        else:
+            for n, (a, b) in enumerate(zip(got, want)):
+                if a[1] != b[1] or a[4] != b[4] or a[5] != b[5]:
+                    bad = "call %d: (k, rank, players) = %r, model %r" % (n, (a[1], a[4], a[5]), (b[1], b[4], b[5])); break
+                if not (close(a[0], b[0], 1e-12, 0.0) and close(a[2], b[2], 1e-12, 1e-300) and close(a[3], b[3], 1e-12, 0.0)):
+                    bad = "call %d: (c, team mu, team sigma^2) = %r, model %r" % (n, (a[0], a[2], a[3]), (b[0], b[2], b[3])); break
+        if bad:
+            res.fail(kind_on_mismatch, "%s: the library's calls of the gamma callback (its internal state: inflation, rank sort, dense ranks, "
+                     "aggregates, c / c_iq, pairing) differ from the model's: %s" % (label, bad), dict(type="game", game=g))
